@@ -720,6 +720,8 @@ def _wrt_matched(case):
     if case.get('pwrt') is None:
         return None
     names = ['x%d' % (k + 1) for k in range(len(case['isz']))]
+    if case.get('implicit'):            # the columns of an implicit component's jacobian are outputs, then inputs
+        names = ['y%d' % (k + 1) for k in range(len(case['osz']))] + names
     return [nm for nm in names if any(fnmatch.fnmatchcase(nm, pat) for pat in case['pwrt'])]
 
 
@@ -740,6 +742,8 @@ def build_h(case, tot=None, par=None):
     method = case.get('method', 'cs')
     other = case.get('other', 'analytic-sparse')
     approx_in = set(xs) if other == 'approx' else set(matched or ())
+    if case.get('implicit') and other == 'approx' and case.get('approx_outputs'):
+        approx_in |= set(ys)
     by_block = bool(case.get('by_block'))
 
     def g(x):
@@ -748,12 +752,21 @@ def build_h(case, tot=None, par=None):
     def gp(x):
         return np.ones_like(x) if gname == 'lin' else 2 * x
 
-    class PatN(om.ExplicitComponent):
+    implicit = bool(case.get('implicit'))
+
+    class PatN(om.ImplicitComponent if implicit else om.ExplicitComponent):
         def setup(self):
             for xn, sl in xs.items():
                 self.add_input(xn, np.ones(sl.stop - sl.start))
             for yn, sl in ys.items():
                 self.add_output(yn, np.ones(sl.stop - sl.start))
+            if implicit:            # R_y = y - A g(x): dR/dy = I, dR/dx = -A g'(x)
+                for yn, sl in ys.items():
+                    if yn in approx_in:
+                        self.declare_partials(yn, yn, method=method)
+                    else:
+                        ar = np.arange(sl.stop - sl.start)
+                        self.declare_partials(yn, yn, rows=ar, cols=ar, val=1.0)
             for xn, xsl in xs.items():
                 if xn in approx_in:
                     if by_block:
@@ -781,9 +794,21 @@ def build_h(case, tot=None, par=None):
             for yn, sl in ys.items():
                 outputs[yn] = y[sl]
 
-        def compute_partials(self, inputs, partials):
+        def solve_nonlinear(self, inputs, outputs):
+            self.compute(inputs, outputs)
+
+        def apply_nonlinear(self, inputs, outputs, residuals):
+            x = np.concatenate([inputs[xn] for xn in xs])
+            y = A.dot(g(x))
+            for yn, sl in ys.items():
+                residuals[yn] = outputs[yn] - y[sl]
+
+        def linearize(self, inputs, outputs, partials):
+            self.compute_partials(inputs, partials, sign=-1.0)
+
+        def compute_partials(self, inputs, partials, sign=1.0):
             x = np.concatenate([inputs[xn] for xn in xs]).real
-            Jf = A * gp(x)[None, :]
+            Jf = sign * A * gp(x)[None, :]
             for xn, xsl in xs.items():
                 if xn in approx_in:
                     continue
@@ -807,6 +832,8 @@ def build_h(case, tot=None, par=None):
     if not pr:
         for xn in xs:
             mdl.connect('ivc.' + xn, 'c.' + xn)
+    if implicit:
+        mdl.linear_solver = om.DirectSolver(assemble_jac=bool(case.get('assemble_jac')))
     sc = case.get('scaling')
     dvs, _, resps, _ = _h_names(case)
     didx = case.get('didx') or [None] * len(isz)
@@ -1095,7 +1122,19 @@ def gen_psub_case(rng, idx):
     else:
         sub = rng.sample(range(1, ni + 1), rng.randrange(2, ni))       # a strict subset, any order
         pwrt = ['x%d' % k for k in sub] if pos == 'several' else ['x[%s]' % ''.join(str(k) for k in sorted(sub))]
-    case = {'kind': 'partialsub', 'idx': idx, 'isz': isz, 'osz': osz, 'pkind': kind, 'A': A,
+    implicit = rng.random() < 0.3
+    if implicit:
+        r = rng.random()
+        if r < 0.25:                      # an output column only / an output and an input
+            pos, pwrt = 'output', ['y%d' % rng.randrange(1, no + 1)]
+        elif r < 0.5:
+            pos, pwrt = 'output+input', ['y%d' % rng.randrange(1, no + 1), 'x%d' % rng.randrange(1, ni + 1)]
+        elif r < 0.6:
+            pos, pwrt = 'all-outputs', ['y*']
+        elif r < 0.7:
+            pos, pwrt = 'all-inputs', ['x*']
+    case = {'kind': 'partialsub', 'idx': idx, 'isz': isz, 'osz': osz, 'pkind': kind, 'A': A, 'implicit': implicit,
+            'assemble_jac': rng.random() < 0.5, 'approx_outputs': rng.random() < 0.5,
             'g': rng.choice(['lin', 'sq']), 'x0': [round(rng.uniform(0.5, 1.5), 4) for _ in range(n)],
             'mode': rng.choice(['fwd', 'rev', 'auto']), 'direct': rng.random() < 0.6, 'promote': rng.random() < 0.5,
             'driver': rng.choice(['base', 'scipy']), 'obj': None, 'scaling': None, 'pos': pos, 'pwrt': pwrt,
@@ -1114,8 +1153,8 @@ def run_psub_case(case, acc):
     _state['ctx'] = 'partialsub'
     ps = []
     tag = 'wrt-all' if case['pos'] == 'all' else 'wrt-subset'
-    desc = 'position %s, other inputs %s, method %s, %s coloring' % (case['pos'], case['other'], case['method'],
-                                                                    case['pcolsrc'])
+    desc = '%s component, position %s, other inputs %s, method %s, %s coloring' % (
+        'implicit' if case.get('implicit') else 'explicit', case['pos'], case['other'], case['method'], case['pcolsrc'])
     try:
         blocks = closed_form_h(case, False)
         dvs, _, resps, _ = _h_names(case)
@@ -1169,6 +1208,7 @@ def run_psub_case(case, acc):
         acc.count('cell:partialsub/%s' % case['pcolsrc'])
         if case['by_block']:
             acc.count('cell:partialsub/partials-declared-per-nonzero-block')
+        acc.count('cell:partialsub/%s' % ('implicit' if case.get('implicit') else 'explicit'))
         bad = False
         for stage in ('partials', 'totals-on-top'):
             J = res[stage]
@@ -1189,7 +1229,7 @@ def run_psub_case(case, acc):
         if used['totals-on-top'][1]:
             acc.count('obs:partialsub-total-coloring-on-top-used')
         acc.ok(fingerprint(['partialsub', case['isz'], case['osz'], (A != 0).astype(int).tolist(), case['pwrt'],
-                            case['method'], case['other'], case['by_block'], case['pcolsrc'], case['mode']]),
+                            bool(case.get('implicit')), case['method'], case['other'], case['by_block'], case['pcolsrc'], case['mode']]),
                nontrivial=True, sample=case if case['idx'] % 23 == 0 else None)
     finally:
         _state['ctx'] = None
